@@ -228,7 +228,8 @@ Qed.
 Lemma st_insert_np n cols s d vals : Rep s d -> snd (st_insert s n cols vals) <> Panic.
 Proof.
   intros HR. pose proof HR as [Hinv Hok (pt & sc & ents & osc & HC)].
-  unfold st_insert. rewrite is_sys_table_is_sys.
+  unfold st_insert. destruct (ins_bad_cols s n cols vals); [cbn [snd]; discriminate|].
+  unfold st_insert0. rewrite is_sys_table_is_sys.
   destruct (is_sys n) eqn:Hsys; [cbn [snd]; discriminate|].
   destruct (find_tbl n d) as [t|] eqn:Hf.
   2:{ rewrite (cat_rel_offset_none s d pt sc ents osc Hinv HC n Hsys Hf). cbn [bind snd]. discriminate. }
@@ -260,7 +261,8 @@ Qed.
 
 Lemma st_update_np n cols vals s d k : Rep s d -> snd (st_update s n k cols vals) <> Panic.
 Proof.
-  intros HR. unfold st_update. destruct (is_sys_table n); [cbn [snd]; discriminate|].
+  intros HR. unfold st_update. destruct (upd_bad_cols s n cols); [cbn [snd]; discriminate|]. unfold st_update0.
+  destruct (is_sys_table n); [cbn [snd]; discriminate|].
   pose proof (rel_offset_np s d n HR) as H1.
   destruct (rel_offset s n) as [off|e|]; cbn [bind]; [|cbn [snd]; discriminate|congruence].
   pose proof (get_tree_np s off) as H2.
@@ -290,7 +292,8 @@ Qed.
 Lemma st_insert_ok_user n cols s d vals s1 ws :
   Rep s d -> st_insert s n cols vals = (s1, Ok ws) -> is_sys n = false /\ exists t, find_tbl n d = Some t.
 Proof.
-  intros [Hinv Hok (pt & sc & ents & osc & HC)] Hst. unfold st_insert in Hst. rewrite is_sys_table_is_sys in Hst.
+  intros [Hinv Hok (pt & sc & ents & osc & HC)] Hst. unfold st_insert in Hst.
+  destruct (ins_bad_cols s n cols vals); [inversion Hst|]. unfold st_insert0 in Hst. rewrite is_sys_table_is_sys in Hst.
   destruct (is_sys n) eqn:Hsys; [inversion Hst|]. split; [reflexivity|].
   destruct (find_tbl n d) as [t|] eqn:Hf; [eauto|].
   rewrite (cat_rel_offset_none s d pt sc ents osc Hinv HC n Hsys Hf) in Hst. cbn [bind] in Hst. inversion Hst.
@@ -308,7 +311,7 @@ Proof.
   destruct (st_insert_ok_user n cols s d vals s1 ws HR Est) as (Hsys & t & Hf).
   assert (Hmax1 : nextFree s1 <= OFFMAX).
   { pose proof (insert_rows_free_mono rest s1 n cols (b ++ ws) (S k)) as X. lia. }
-  destruct (st_insert_rep n cols s d t vals s1 ws HR Hsys Hf Hv Hmax1 Est) as (_ & _ & HR1).
+  destruct (st_insert_rep n cols s d t vals s1 ws HR Hsys Hf Hv Hmax1 Est) as (_ & _ & _ & HR1).
   eapply IH; eauto.
 Qed.
 
@@ -481,7 +484,7 @@ Proof.
     destruct (where_ids s n w) as [ids|e|] eqn:Ew; cbn [e_out]; [|discriminate|congruence].
     destruct (is_sys n) eqn:Hsys.
     { destruct ids as [|k rest]; [cbn; discriminate|].
-      cbn [update_rows]. unfold st_update. rewrite is_sys_table_is_sys, Hsys. cbn. discriminate. }
+      cbn [update_rows]. unfold st_update, upd_bad_cols, st_update0. rewrite is_sys_table_is_sys, Hsys. cbn. discriminate. }
     destruct (find_tbl n d) as [t|] eqn:Hf.
     2:{ exfalso. unfold where_ids in Ew. rewrite (st_fetch_missing s d n HR Hsys Hf) in Ew. discriminate. }
     destruct (where_ids_spec s n w ids Ew) as (idrows & fs & Hfetch & Hids & Hev).
